@@ -14,13 +14,15 @@ feature is multi-valued is run under many schedules on one persisted generator f
 Compared byte for byte: every file of every program folder and the three summary CSVs.
 What is ignored, exactly:
   * everything under Logs/ (time stamps);
-  * parameters.yaml: compared byte for byte between two runs of the SAME schedule; between schedules that
-    differ only in the worker count the line `processes_count: <n>` is dropped on both sides; for permuted
-    order / subsets it is not compared (it lists the programs in file order);
+  * parameters.yaml: the lines `input_directory:` / `output_directory:` are always dropped (variants run on
+    copies of the reference folder); otherwise compared byte for byte between two runs of the SAME schedule;
+    between schedules that differ only in the worker count the line `processes_count: <n>` is dropped on
+    both sides too; for permuted order / subsets it is not compared (it lists the programs in file order);
   * the three summary CSVs between DIFFERENT schedules are compared as header + sorted data rows (the row
     order follows os.scandir of the output folder, i.e. folder creation order, which is C14's subject);
-    between two runs of the same sequential schedule they are compared byte for byte; for a subset run
-    every data row must occur verbatim in the full run's summary.
+    between two runs of the same sequential schedule they are compared byte for byte (two runs of the same
+    POOL schedule: rows sorted, a pure row-order difference is reported under its own signature); for a
+    subset run every data row must occur verbatim in the full run's summary.
 Tie 3 (observation-only monitor, harness/props/c12_monitor.py): per task the process-wide state is looked
 at: module/class-level containers changed, stdlib `random` state moved, numpy global generator advanced
 before the first re-seed.  Every observed effect must be in the extracted tables (else the extractor is
@@ -58,7 +60,12 @@ QE_FILE = "qe_errors.csv"
 # configuration: every stochastic feature multi-valued
 # ------------------------------------------------------------------------------------------------
 def c12_config(rng, ndays, n_sites, n_sims, four=True):
-    cfg = W.make_config(rng, ndays=ndays, n_sites=n_sites, n_sims=n_sims)
+    # start early enough in the year that the run stays inside one calendar year (make_config truncates
+    # runs that would end in a trailing partial year, finding recorded under C06)
+    start = W.date(rng.choice([2021, 2022, 2023]), rng.choice([1, 3, 5]), 1)
+    end = start + W.timedelta(days=ndays - 1)
+    cfg = W.make_config(rng, ndays=ndays, n_sites=n_sites, n_sims=n_sims,
+                        start=[start.year, start.month, start.day], end=[end.year, end.month, end.day])
     allm = list(range(1, 13))
     cfg["consider_weather"] = rng.random() < 0.5
     cfg["weather_mode"] = "mixed"
@@ -173,8 +180,13 @@ def _rows(b):
     return lines[0], sorted(lines[1:])
 
 
+def _strip_dirs(b):
+    return b"\n".join(ln for ln in b.split(b"\n")
+                      if not (ln.startswith(b"input_directory:") or ln.startswith(b"output_directory:")))
+
+
 def _strip_proc(b):
-    return b"\n".join(ln for ln in b.split(b"\n") if not ln.startswith(b"processes_count:"))
+    return b"\n".join(ln for ln in _strip_dirs(b).split(b"\n") if not ln.startswith(b"processes_count:"))
 
 
 def compare(ra, rb, relation):
@@ -202,8 +214,8 @@ def compare(ra, rb, relation):
                 return {"file": rel, "kind": _kind(rel), "diff": _first_diff(a, b)}
             continue
         if rel == "parameters.yaml":
-            if relation == "same" and a != b:
-                return {"file": rel, "kind": "parameters-yaml", "diff": _first_diff(a or b"", b or b"")}
+            if relation == "same" and _strip_dirs(a or b"") != _strip_dirs(b or b""):
+                return {"file": rel, "kind": "parameters-yaml", "diff": _first_diff(_strip_dirs(a or b""), _strip_dirs(b or b""))}
             if relation == "workers" and _strip_proc(a or b"") != _strip_proc(b or b""):
                 return {"file": rel, "kind": "parameters-yaml", "diff": _first_diff(_strip_proc(a or b""), _strip_proc(b or b""))}
             continue
@@ -251,7 +263,7 @@ def _csv(b):
 
 def features(run):
     feat = {}
-    travel, costs, qe, cov_t, cov_f, tagged = set(), set(), 0, 0, 0, 0
+    travel, costs, qe, tagged = set(), set(), 0, 0
     for rel, b in run.files.items():
         if rel.endswith("_timeseries.csv"):
             for r in _csv(b):
@@ -264,12 +276,6 @@ def features(run):
                     costs.add(v)
         elif rel.endswith("_emissions_summary.csv"):
             for r in _csv(b):
-                for k, v in r.items():
-                    if k.endswith("Spatial Coverage"):
-                        if v in ("1", "1.0", "True"):
-                            cov_t += 1
-                        elif v in ("0", "0.0", "False"):
-                            cov_f += 1
                 tr, mr = r.get('"True" Rate (g/s)'), r.get('"Measured" Rate (g/s)')
                 if tr and mr and tr != mr and mr not in ("0", "0.0"):
                     qe += 1
@@ -278,8 +284,6 @@ def features(run):
     feat["distinct_travel_time_days"] = len(travel)
     feat["distinct_daily_repair_costs"] = len(costs)
     feat["emissions_measured_ne_true"] = qe
-    feat["spatial_cov_true"] = cov_t
-    feat["spatial_cov_false"] = cov_f
     feat["tagged"] = tagged
     return feat
 
@@ -383,7 +387,7 @@ def differential(ctx, cfg, tables, repo=None, label="cfg"):
             return item, r
 
         jobs = []
-        with ThreadPoolExecutor(max_workers=ctx.pick(6, 5)) as ex:
+        with ThreadPoolExecutor(max_workers=ctx.pick(7, 6)) as ex:
             # copies first (they only need the generator folder of the reference run) ...
             for i, item in enumerate(plan):
                 if item[3] == "copy":
@@ -391,9 +395,22 @@ def differential(ctx, cfg, tables, repo=None, label="cfg"):
                     os.makedirs(wd)
                     copy_inputs(wd_a, wd)
                     jobs.append(ex.submit(do, item, wd))
+            # sensitivity of the comparison: the same schedule on a FRESH folder (new seeds) must differ
+            wd_f = os.path.join(root, "fresh")
+            os.makedirs(wd_f)
+            fresh_job = ex.submit(run_schedule, cfg, base, wd_f, repo)
             # ... while the same-folder reruns go sequentially through folder A
             seq = [do(item, wd_a) for item in plan if item[3] == "A"]
             done = seq + [j.result() for j in jobs]
+            fresh = fresh_job.result()
+        ctx.traces += 1
+        if fresh.rc == 0 and compare(ref, fresh, "same") is not None:
+            ctx.count("fresh_folder_differs")
+            ctx.nontrivial.add("sensitivity:fresh-folder-differs")
+        else:
+            ctx.count("fresh_folder_identical_or_failed")
+            ctx.note(f"{label}: a run on a fresh generator folder did not differ from the reference (rc={fresh.rc}): "
+                     "the byte comparison of this configuration is not shown to be sensitive to the seeds")
         # pool rerun: same pool schedule twice in one folder (uses a copy folder sequentially)
         for (item, r) in done:
             lab, rel, sched, where = item
@@ -437,3 +454,275 @@ def differential(ctx, cfg, tables, repo=None, label="cfg"):
     finally:
         shutil.rmtree(root, ignore_errors=True)
     return results
+
+
+# ------------------------------------------------------------------------------------------------
+# the Lean model, executed (drv_effects) against an independent Python rendering of the same machine
+# ------------------------------------------------------------------------------------------------
+def _mix(a, x):
+    return (a * 31 + x + 7) % 1000003
+
+
+def _digest(lst):
+    a = len(lst)
+    for x in lst:
+        a = _mix(a, x)
+    return a
+
+
+def py_exec(reseed, sa, sb, prog, sim, env):
+    """prog = (prologue, days, epilogue) of ops [tag,a,b]; env = {"sh": {c: [..]}, "rng": [np, std, oth]}"""
+    ops = list(prog[0])
+    for d, b in enumerate(prog[1]):
+        if reseed:
+            ops.append([0, d, 0])
+        ops += b
+    ops += prog[2]
+    acc, out = sim + 3, []
+    for tag, a, b in ops:
+        if tag == 0:
+            env["rng"][0] = sa * sim + a + sb
+        elif tag == 1:
+            s = (env["rng"][a] * 1103515245 + 12345) % 2147483648
+            env["rng"][a] = s
+            acc = _mix(acc, s)
+        elif tag == 2:
+            acc = _mix(acc, _digest(env["sh"].get(a, [])))
+        elif tag == 3:
+            env["sh"].setdefault(a, []).append(b)
+        elif tag == 4:
+            acc = _mix(acc, a)
+        elif tag == 5:
+            out.append(acc)
+    return out
+
+
+def py_clean(prog):
+    def ok(ops, allow_draw=True):
+        for tag, a, b in ops:
+            if tag == 3:
+                return False
+            if tag == 1 and (a != 0 or not allow_draw):
+                return False
+        return True
+
+    return ok(prog[0], False) and all(ok(d) for d in prog[1]) and ok(prog[2], bool(prog[1]))
+
+
+def _enc(x):
+    return json.dumps(x, separators=(",", ":"))
+
+
+def model_stage(ctx):
+    drv = core.LeanDriver("drv_effects")
+    if not drv.available():
+        ctx.broke("driver drv_effects", "executable missing")
+        return
+    rng = ctx.rng
+    n = ctx.pick(300, 3000)
+    lines, cases = [], []
+
+    def rand_ops(k, clean, in_loop):
+        ops = []
+        for _ in range(rng.randint(0, k)):
+            r = rng.random()
+            if r < 0.3 and (in_loop or not clean):
+                ops.append([1, 0 if clean else rng.choice([0, 0, 1, 2]), 0])
+            elif r < 0.45:
+                ops.append([2, rng.randint(0, 2), 0])
+            elif r < 0.55 and not clean:
+                ops.append([3, rng.randint(0, 2), rng.randint(0, 9)])
+            elif r < 0.75:
+                ops.append([4, rng.randint(0, 50), 0])
+            else:
+                ops.append([5, 0, 0])
+        return ops
+
+    for i in range(n):
+        clean = rng.random() < 0.5
+        progs = []
+        for _ in range(rng.randint(1, 4)):
+            days = [rand_ops(4, clean, True) for _ in range(rng.randint(1 if clean else 0, 3))]
+            progs.append([rand_ops(3, clean, False), days, rand_ops(3, clean, True)])
+        reseed = 1 if clean or rng.random() < 0.7 else 0
+        workers = []
+        for _ in range(rng.randint(1, 3)):
+            tasks = [[rng.randrange(len(progs)), rng.randint(0, 2)] for _ in range(rng.randint(0, 4))]
+            workers.append([rng.randint(0, 99), rng.randint(0, 99), rng.randint(0, 99), tasks])
+        sa, sb = rng.randint(0, 200), rng.randint(0, 50)
+        lines.append(f"run {reseed} {sa} {sb} {_enc(progs)} {_enc(workers)}")
+        cases.append((reseed, sa, sb, progs, workers, clean))
+    replies = drv.run(lines)
+    interfered = 0
+    for (reseed, sa, sb, progs, workers, clean), line, rep in zip(cases, lines, replies):
+        outs, al = [], []
+        for (np_, std, oth, tasks) in workers:
+            env = {"sh": {}, "rng": [np_, std, oth]}
+            outs.append([py_exec(reseed, sa, sb, progs[i], sim, env) for i, sim in tasks])
+            al.append([py_exec(reseed, sa, sb, progs[i], sim, {"sh": {}, "rng": [0, 0, 0]}) for i, sim in tasks])
+        cl = [1 if py_clean(p) else 0 for p in progs]
+        want = f"{_enc(outs)} | {_enc(al)} | {_enc(cl)}"
+        ctx.evaluations += 1
+        if rep != want:
+            ctx.disagree("effects-machine", line, rep, want)
+            continue
+        if all(cl) and reseed:
+            ctx.count("model_clean_schedules")
+            ctx.nontrivial.add(f"model:clean:{len(workers)}w:{sum(len(w[3]) for w in workers)}t")
+            if outs != al:   # would contradict the theorem: report as disagreement of model and proof
+                ctx.disagree("effects-machine:noninterference", line, rep, "outputs = alone outputs")
+        elif outs != al:
+            interfered += 1
+    ctx.count("model_unclean_schedules_with_interference", interfered)
+    if not interfered:
+        ctx.note("model stage: no interference observed in the unclean model schedules (sensitivity not shown)")
+
+
+# ------------------------------------------------------------------------------------------------
+# direct check on the real Equipment_Group helper (its whole-run trigger needs method-specific columns
+# in the equipment file, which the generated configurations do not have)
+# ------------------------------------------------------------------------------------------------
+DIRECT_SNIPPET = r"""
+import json, sys
+from harness import shim
+shim.install()
+import pandas as pd
+from virtual_world.equipment_groups import Equipment_Group
+from constants.infrastructure_const import Infrastructure_Constants as IC
+C = IC.Equipment_Group_File_Constants
+before = list(C.PROPAGATING_PARAMETER_COLUMNS)
+eg = Equipment_Group.__new__(Equipment_Group)
+info = pd.Series({"equipment": "eq1", "compA": 2, "OGI_survey_time": 30, "AIR_survey_cost": 5.0, "repairable_duration": 10})
+outs = [sorted(eg._clean_propagating_parameters_from_equipment_info(info).to_dict().items()) for _ in range(3)]
+print(json.dumps({"before": before, "after": list(C.PROPAGATING_PARAMETER_COLUMNS), "outs": [[list(map(str, kv)) for kv in o] for o in outs]}))
+"""
+
+
+def direct_equipment_constant(ctx, repo=None):
+    env = dict(os.environ)
+    env["PYTHONPATH"] = W.VERIF + os.pathsep + env.get("PYTHONPATH", "")
+    env["PYTHONDONTWRITEBYTECODE"] = "1"
+    if repo:
+        env["LDAR_REPO"] = repo
+    p = subprocess.run([W.PY, "-c", DIRECT_SNIPPET], cwd=W.VERIF, env=env, stdout=subprocess.PIPE,
+                       stderr=subprocess.PIPE, text=True, timeout=300)
+    if p.returncode != 0:
+        raise core.InfraError("direct equipment-constant check failed to run:\n" + p.stderr[-2000:])
+    d = json.loads(p.stdout.strip().splitlines()[-1])
+    ctx.evaluations += 1
+    ctx.count("direct_equipment_constant")
+    ctx.nontrivial.add("direct:equipment-constant")
+    if d["before"] != d["after"]:
+        tgt = "constants.infrastructure_const:Infrastructure_Constants.Equipment_Group_File_Constants.PROPAGATING_PARAMETER_COLUMNS"
+        ctx.count("monitor_container_changed")
+        ctx.extra.setdefault("direct_equipment_constant", {"len_before": len(d["before"]), "len_after": len(d["after"])})
+        return tgt, d
+    if d["outs"][0] != d["outs"][1] or d["outs"][1] != d["outs"][2]:
+        ctx.violate("C12:direct:equipment-clean-up-depends-on-history",
+                    "repeated _clean_propagating_parameters_from_equipment_info calls on the same row differ",
+                    {"direct": "equipment_constant", "result": d})
+    return None, d
+
+
+# ------------------------------------------------------------------------------------------------
+# check entry points
+# ------------------------------------------------------------------------------------------------
+def table_stage(ctx, repo=None):
+    try:
+        import warnings
+
+        with warnings.catch_warnings():
+            warnings.simplefilter("ignore")
+            tables, changed = EX.regenerate(repo)
+    except EX.ExtractError as e:
+        raise core.InfraError(f"effects extractor: {e}")
+    ctx.extra["effects_tables"] = {
+        "repo": tables["repo"], "entry": tables["entry"], "reachable_modules": len(tables["reachable_modules"]),
+        "excluded_modules": tables["excluded_modules"], "rng_sites": len(tables["rngSites"]),
+        "seed_calls": len(tables["seedSites"]), "seed_points": tables["seedPoints"],
+        "shared_mutations": tables["sharedMutations"], "table_rewritten": changed, "sha256": tables["sha256"],
+        "rng_by_generator": {g: sum(1 for s in tables["rngSites"] if s["gen"] == g)
+                             for g in ("numpyGlobal", "stdlibRandom", "other")},
+    }
+    bad = [s for s in tables["rngSites"] if s["gen"] != "numpyGlobal"]
+    if bad:
+        ctx.broke("table obligation rng_all_seeded", json.dumps(bad, indent=1))
+    if tables["sharedMutations"]:
+        ctx.broke("table obligation no_shared_mutation", json.dumps(tables["sharedMutations"], indent=1))
+    unseeded = [p for p in tables["seedPoints"] if not p["seeded"]]
+    if unseeded or sum(1 for p in tables["seedPoints"] if p["kind"] == "dayLoop") != 1:
+        ctx.broke("table obligation consumers_reseeded", json.dumps(unseeded or tables["seedPoints"], indent=1))
+    return tables
+
+
+def config_plan(ctx):
+    """(ndays, n_sites, n_sims, four programs?)"""
+    if ctx.quick:
+        return [(150, 6, 1, True), (120, 5, 2, False), (200, 8, 2, True)]
+    return [(200, 8, 2, True), (180, 7, 1, True), (150, 6, 2, True), (200, 8, 3, False), (120, 5, 1, True)]
+
+
+def run(ctx):
+    ctx.rule = ("whole runs of the real simulator: per configuration (all stochastic features multi-valued: travel-time "
+                "lists, repair cost/delay lists, sampling/uniform/normal quantification error, spatial and temporal "
+                "coverage < 1, probabilistic OGI sensors, weather) one reference run creates the generator folder, then "
+                "the schedules {same inputs again (sequential, and the same pool schedule twice), pool sizes, permuted "
+                "program order (sequential and pool), subsets containing the baseline} run on that folder / copies of it; "
+                "one evaluation = one byte comparison of all per-program files + 3 summaries of a schedule against the "
+                "reference; non-trivial = distinct (relation, mode, #programs) classes, stochastic features seen active "
+                "in the reference outputs, and distinct clean model schedules (drv_effects vs Python rendering)")
+    repo = os.environ.get("LDAR_REPO") or None
+    tables = table_stage(ctx, repo)
+    core.lean_stage(ctx, MODULE, FILE, drivers=["drv_effects"])
+    model_stage(ctx)
+    tgt, d = direct_equipment_constant(ctx, repo)
+    if tgt is not None and tgt not in {m["target"] for m in tables["sharedMutations"]}:
+        ctx.disagree("effects-table:sharedMutations", {"direct": "equipment_constant", "container": tgt},
+                     "not listed as mutated", f"grew from {len(d['before'])} to {len(d['after'])} entries in three calls")
+    for i, (ndays, n_sites, n_sims, four) in enumerate(config_plan(ctx)):
+        cfg = c12_config(ctx.rng, ndays, n_sites, n_sims, four)
+        differential(ctx, cfg, tables, repo=repo, label=f"cfg{i}")
+    ctx.assumptions.append("C12: effect analysis is syntactic (import-closure reachability, aliases through parameters not seen); "
+                           "OS scheduling, multiprocessing pickling and float formatting are covered by the differential runs only")
+    ctx.extra["ignored_in_comparison"] = ["Logs/*", "parameters.yaml: input_directory/output_directory lines always, processes_count line "
+                                          "between different worker counts, whole file for permuted order and subsets",
+                                          "row order of the three summary CSVs between different schedules and between two pool runs"]
+
+
+def replay(ctx, data):
+    inp = data.get("input", {})
+    repo = os.environ.get("LDAR_REPO") or None
+    if inp.get("direct") == "equipment_constant":
+        tgt, d = direct_equipment_constant(ctx, repo)
+        print("direct equipment constant:", "MUTATED" if tgt else "unchanged", d["outs"][0])
+        return 1 if (tgt or ctx.violations) else 0
+    if "cfg" not in inp:
+        print("replay: broken obligation / correspondence:", json.dumps(data.get("broken_obligations"), indent=1)[:3000],
+              json.dumps(data.get("correspondence_disagreements"), indent=1)[:3000])
+        return 1
+    cfg, sa, sb, rel = inp["cfg"], inp["schedule_a"], inp["schedule_b"], inp["relation"]
+    root = tempfile.mkdtemp(prefix="ldarverif_c12r_")
+    try:
+        wa = os.path.join(root, "A")
+        os.makedirs(wa)
+        ra = run_schedule(cfg, sa, wa, repo=repo)
+        if rel == "same":
+            if not sa["debug"]:
+                ra = run_schedule(cfg, sa, wa, repo=repo)  # first run created the folder; compare 2nd and 3rd
+            rb = run_schedule(cfg, sb, wa, repo=repo)
+        else:
+            wb = os.path.join(root, "B")
+            os.makedirs(wb)
+            copy_inputs(wa, wb)
+            rb = run_schedule(cfg, sb, wb, repo=repo)
+        print("schedule a:", sched_str(sa), "rc", ra.rc)
+        print("schedule b:", sched_str(sb), "rc", rb.rc)
+        d = compare(ra, rb, rel)
+        if d is None:
+            print("no difference (every per-program file and the three summaries equal)")
+            return 0
+        print("first differing file:", d["file"], "kind:", d["kind"])
+        print(json.dumps(d["diff"], indent=1))
+        return 1
+    finally:
+        shutil.rmtree(root, ignore_errors=True)
